@@ -267,6 +267,147 @@ KNOWN_ROLE = {
 }
 
 
+REAP_TEST = r"""
+#[cfg(test)]
+mod verif_c18_reap_under_failure {
+    use crate::{MultiProgress, ProgressBar, ProgressDrawTarget, TermLike};
+    use std::io;
+    use std::mem::ManuallyDrop;
+    use std::panic::{catch_unwind, AssertUnwindSafe};
+    use std::sync::atomic::{AtomicBool, Ordering};
+    use std::sync::Arc;
+
+    #[derive(Debug, Clone, Default)]
+    struct Flaky(Arc<AtomicBool>);
+    impl Flaky {
+        fn op(&self) -> io::Result<()> {
+            if self.0.load(Ordering::SeqCst) { Err(io::Error::new(io::ErrorKind::BrokenPipe, "terminal gone")) } else { Ok(()) }
+        }
+    }
+    impl TermLike for Flaky {
+        fn width(&self) -> u16 { 80 }
+        fn height(&self) -> u16 { 24 }
+        fn move_cursor_up(&self, _: usize) -> io::Result<()> { self.op() }
+        fn move_cursor_down(&self, _: usize) -> io::Result<()> { self.op() }
+        fn move_cursor_right(&self, _: usize) -> io::Result<()> { self.op() }
+        fn move_cursor_left(&self, _: usize) -> io::Result<()> { self.op() }
+        fn write_line(&self, _: &str) -> io::Result<()> { self.op() }
+        fn write_str(&self, _: &str) -> io::Result<()> { self.op() }
+        fn clear_line(&self) -> io::Result<()> { self.op() }
+        fn flush(&self) -> io::Result<()> { self.op() }
+    }
+
+    fn guarded<R>(what: &str, bad: &mut Vec<String>, f: impl FnOnce() -> R) -> Option<R> {
+        match catch_unwind(AssertUnwindSafe(f)) {
+            Ok(r) => Some(r),
+            Err(_) => { bad.push(what.to_string()); None }
+        }
+    }
+
+    /// the draw that reaps a zombie from the head of the MultiProgress fails; afterwards everything must keep working
+    #[test]
+    fn verif_c18_reaping_draw_fails() {
+        std::panic::set_hook(Box::new(|_| {}));
+        let mut bad = Vec::new();
+        for first_failing in ["set_message", "println", "tick"] {
+            let term = Flaky::default();
+            let mp = MultiProgress::with_draw_target(ProgressDrawTarget::term_like(Box::new(term.clone())));
+            let pb1 = mp.add(ProgressBar::new(10));
+            let pb2 = mp.add(ProgressBar::new(10));
+            let pb3 = ManuallyDrop::new(mp.add(ProgressBar::new(10)));
+            pb1.tick(); pb2.tick(); pb3.tick();
+            drop(pb2); // not at the head: waits as a zombie
+            drop(pb1); // head: reaped at once; the zombie is now at the head and is reaped by the next draw
+            term.0.store(true, Ordering::SeqCst);
+            let w = format!("[failing {first_failing}]");
+            match first_failing {
+                "set_message" => { guarded(&format!("{w} set_message"), &mut bad, || pb3.set_message("m")); }
+                "println" => { guarded(&format!("{w} println"), &mut bad, || { let _ = mp.println("x"); }); }
+                _ => { guarded(&format!("{w} tick"), &mut bad, || pb3.tick()); }
+            }
+            guarded(&format!("{w} second failing draw"), &mut bad, || { let _ = mp.println("y"); });
+            term.0.store(false, Ordering::SeqCst);
+            let pb4 = guarded(&format!("{w} add"), &mut bad, || ManuallyDrop::new(mp.add(ProgressBar::new(5))));
+            if let Some(pb4) = &pb4 {
+                guarded(&format!("{w} pb4.set_position"), &mut bad, || pb4.set_position(2));
+            }
+            guarded(&format!("{w} pb3.set_position"), &mut bad, || pb3.set_position(7));
+            guarded(&format!("{w} println on a healthy terminal"), &mut bad, || { let _ = mp.println("z"); });
+            let pb5 = guarded(&format!("{w} insert(0)"), &mut bad, || ManuallyDrop::new(mp.insert(0, ProgressBar::new(3))));
+            if let Some(pb5) = &pb5 {
+                guarded(&format!("{w} remove"), &mut bad, || mp.remove(pb5));
+            }
+            guarded(&format!("{w} finish"), &mut bad, || pb3.finish_with_message("done"));
+            guarded(&format!("{w} clear"), &mut bad, || { let _ = mp.clear(); });
+            let st = guarded(&format!("{w} getters"), &mut bad, || (pb3.position(), pb3.length(), pb3.is_finished()));
+            if let Some(st) = st {
+                if st != (10, Some(10), true) {
+                    bad.push(format!("{w} logical state of the surviving bar is {st:?}"));
+                }
+            }
+            if let Some(pb4) = &pb4 {
+                if let Some(p) = guarded(&format!("{w} pb4 getters"), &mut bad, || (pb4.position(), pb4.length())) {
+                    if p != (2, Some(5)) {
+                        bad.push(format!("{w} logical state of the bar added later is {p:?}"));
+                    }
+                }
+            }
+        }
+        if bad.is_empty() {
+            println!("REAPFAIL nopanic");
+        } else {
+            println!("REAPFAIL broken {}", bad.join(" | "));
+        }
+    }
+}
+"""
+
+
+def native_reapfail(root):
+    from props.C05 import native_test
+    try:
+        rc, out = native_test(root, "lib.rs", REAP_TEST, "verif_c18_reaping_draw_fails", timeout=900)
+    except Exception as e:  # noqa
+        return None, repr(e)
+    m = re.search(r"REAPFAIL (broken|nopanic)(.*)", out)
+    if not m:
+        pm = re.search(r"(error[^\n]*\n[^\n]*|panicked at [^\n]*\n[^\n]*)", out)
+        return None, (pm.group(0) if pm else out[-300:])
+    return (m.group(1) == "broken"), m.group(0)[:500]
+
+
+MEMBERSHIP_MUT = re.compile(r"^_\d+ = &mut \(\(\*_1\)\.\d+: (?:std::vec::)?Vec<(?:multi::)?(?:MultiStateMember|usize)>\);$")
+MEMBERSHIP_CALL = re.compile(r"MultiState::(remove_idx|insert|mark_zombie)$")
+
+
+def early_error_after_membership_change(fn):
+    """E1: blocks of fn where an Err residual is returned (`?`) and that are reachable from a block that borrows the membership vectors
+    (members / ordering / free_set) mutably or calls remove_idx / insert. -> list of (mutation block, stmt, residual block)"""
+    succ = {bb: [t for t, _ in successors(st)] for bb, st in fn.blocks.items()}
+    residual = [bb for bb, st in fn.blocks.items() if any("from_residual" in x for x in st)]
+    muts = []
+    for bb, st in fn.blocks.items():
+        for x in st:
+            c = CALL_RE.match(x)
+            if MEMBERSHIP_MUT.match(x) or (c and MEMBERSHIP_CALL.search(c.group(2).strip())):
+                muts.append((bb, x))
+    out = []
+    for mb, x in muts:
+        if path_to(fn, mb) is None:
+            continue
+        seen, work = set(), [mb]
+        while work:
+            b = work.pop()
+            if b in seen:
+                continue
+            seen.add(b)
+            work += succ.get(b, [])
+        for rb in residual:
+            if rb in seen and rb != mb:
+                out.append((mb, x, rb))
+    return out
+
+
 def run(tier, logdir):
     root = common.scratch_root()
     assumptions = [
@@ -323,6 +464,28 @@ def run(tier, logdir):
         queries.append({"name": "no function turns a terminal I/O result into a panic: %d functions, %d candidate sites, %d feasibility queries" % (nfn, nsites, nq),
                         "verdict": "PASS" if nfn > 50 else "VACUOUS", "why": "" if nfn > 50 else "fewer than 50 functions found in the MIR dump",
                         "bounds": "every non-unwind MIR path of every library function", "wall_s": round(t_solver, 2), "solver": {"z3+cvc5": "path feasibility"}})
+        # E1: a failing draw must not leave the membership of a MultiProgress half-updated
+        t0 = time.time()
+        e1 = []
+        ms_fns = [fn for fn in mir.fns if fn.name.startswith("multi") and fn.params and fn.params[0][1].strip() == "&mut MultiState" and "verif" not in fn.name]
+        for fn in ms_fns:
+            for mb, x, rb in early_error_after_membership_change(fn):
+                e1.append("%s: `%s` (%s) is followed by an early Err return in %s" % (short(fn.name), x[:90], mb, rb))
+        label = "no &mut MultiState method returns an I/O error early after changing members / ordering / free_set: %d methods" % len(ms_fns)
+        if not e1:
+            queries.append({"name": label, "verdict": "PASS" if ms_fns else "VACUOUS", "why": "" if ms_fns else "no &mut MultiState method found", "bounds": "every non-unwind MIR path of the &mut MultiState methods", "wall_s": round(time.time() - t0, 2)})
+        else:
+            brk, detail = native_reapfail(root)
+            if brk is True:
+                art_dir = os.path.join(OUT_DIR, "replays", "C18")
+                os.makedirs(art_dir, exist_ok=True)
+                art = os.path.join(art_dir, "reaping_draw_fails.json")
+                with open(art, "w") as fh:
+                    json.dump({"property": "C18", "native_scenario": "reapfail", "what": e1[0], "native": detail,
+                               "how": "bin/check C18 --replay <this file>: re-runs the failing-reaping-draw scenario natively against the current tree"}, fh, indent=1)
+                queries.append({"name": "a failing draw leaves the MultiProgress membership half-updated", "verdict": "FAIL", "why": "%s; native run: %s" % (e1[0], detail), "replayed": True, "replay_path": art, "wall_s": round(time.time() - t0, 1)})
+            else:
+                queries.append({"name": label, "verdict": "INCONCLUSIVE", "why": "%s; the native failing-reaping-draw scenario %s" % (e1[0], "kept working" if brk is False else "could not be run: " + str(detail)[:200]), "wall_s": round(time.time() - t0, 1)})
         # vacuity witness: the recogniser must find the panicking consumers in a planted function
         planted = M.MirFn("fn planted(_1: &T) -> () {", "state::planted", [("_1", "&T")], "()", [
             "    let mut _2: std::result::Result<(), std::io::Error>;", "    let _3: ();", "",
@@ -339,6 +502,10 @@ def run(tier, logdir):
 
 def replay(path):
     d = json.load(open(path))
+    if d.get("native_scenario") == "reapfail":
+        brk, detail = native_reapfail(common.scratch_root())
+        say(str(detail))
+        return 2 if brk is None else (1 if brk else 0)
     ok, detail = native_flaky(common.scratch_root())
     say(detail)
     if ok is not None:
